@@ -41,11 +41,50 @@ def _start(ctx: Ctx, attach) -> None:
     msgs, oid = build_msgs(w.cfg.msgs)
     ctx.oid = oid
     ctx.info["msgs"] = msgs
+    # a sixth of the runs: while the transaction is running, the sending user submits a further, valid put request for
+    # ANOTHER existing file (same size, other content). A busy handler refuses it (returns False); nothing of the running
+    # transaction may change
+    premature = None
+    t = w.tape
+    if not w.cfg.metadata_only and not ctx.info.get("no_premature_put") and t.choose(6, "premature put of another file") == 5:
+        w.vfs_a.h_put("src/other.bin", bytes((b ^ 0xA7) for b in w.src_bytes) or b"x")
+        premature = _PrematurePut(ctx, 2 + t.choose(14, "premature put after call"))
     if attach is not None:
         for m in attach(ctx):
             w.monitors.append(m)
+    if premature is not None:
+        w.monitors.append(premature)
     ctx.put_rec = w.call(w.a, "src", "put", arg=w.put_request_obj(msgs))
     w.start_polls()
+
+
+class _PrematurePut:
+    def __init__(self, ctx, after):
+        self.ctx = ctx
+        self.after = after
+        self.n = 0
+        self.done = False
+
+    def on_call(self, w, rec):
+        if self.done or rec.ent != "a" or rec.hk != "src":
+            return
+        self.n += 1
+        if self.n >= self.after:
+            self.done = True
+            w.push(w.clock.t, ("fn", self._fire))
+
+    def _fire(self, w):
+        h = w.a.handlers["src"]
+        if h.state.name != "BUSY" or h.states.packets_ready:
+            return
+        req = w.put_request_obj(None)
+        req.source_file = Path("src/other.bin")
+        req.dest_file = Path("dst/other_out.bin")
+        w.probe("premature_put_of_another_file")
+        w.call(w.a, "src", "put", arg=req, tags=("PREMATURE",))
+
+    def on_end(self, w):
+        pass
 
 
 # ---------------------------------------------------------------------------------------------
@@ -180,11 +219,13 @@ def ticked_pacing(w, t, intervals=None) -> None:
     c = w.cfg
     iv = sorted({int(x * 1000) for x in (intervals or (c.ack_s, c.nak_s)) if x < 1000})
     base = iv[t.choose(len(iv), "tick base interval")]
-    p = [base + 20, int(base * 1.6), max(int(base * 0.6), 150), 2 * base + 20][t.choose(4, "tick period")]
+    p = [base + 20, int(base * 1.6), max(int(base * 0.6), 300), 2 * base + 20][t.choose(4, "tick period")]
     w.pacing = "ticked"
     w.tick_ms = p
-    lo = c.lat_ms + 5
-    hi = max(p - 2 * c.lat_ms - 60, lo + 1)
+    # the second loop runs after the first one has finished what it does in one go (one PDU per millisecond) and the
+    # PDUs have crossed the link, and early enough for its answers to be back before the first loop's next tick
+    lo = c.lat_ms + 33 + min(c.size // max(c.eff_seg, 1), 60)
+    hi = max(p - c.lat_ms - 25, lo + 1)
     w.tick_phase_ms = lo + [0, (hi - lo) // 3, (hi - lo) // 2, hi - lo][t.choose(4, "tick phase")]
 
 
@@ -262,6 +303,10 @@ def bounded_faults(t, attach=None, force=None) -> Ctx:
     elif pv == 3:
         ticked_pacing(w, t)
     ctx.info["K"] = K
+    from spacepackets.cfdp.pdu import TransactionStatus
+
+    w.closed_status = [TransactionStatus.TERMINATED, TransactionStatus.UNDEFINED, TransactionStatus.UNRECOGNIZED][
+        t.weighted([2, 1, 1], "closed transaction status")]
     perturb_irrelevant_config(w, t)
     # a fifth of the runs: the handlers already completed (or cancelled) a transfer and were idle for a while
     if t.choose(5, "prelude") == 4:
